@@ -227,6 +227,8 @@ class Ctx:
         k = n["k"]
         if k == "un" and n["op"] == "!":
             return self.cmp_fact(n["sub"], not truth, inline)
+        if k == "ref" and n["dk"] == "local" and inline and self.single_assignment(n["d"]) and n.get("t") == "bool":
+            return self.cmp_fact(self.decls[n["d"]]["init"], truth, inline)
         if k == "bin" and ((n["op"] == "&&" and truth) or (n["op"] == "||" and not truth)):
             return self.cmp_fact(n["l"], truth, inline) + self.cmp_fact(n["r"], truth, inline)
         op = None
